@@ -129,7 +129,18 @@ fn run(op: &str, a: &[&str]) -> String {
             let mut q = <G1 as MapToCurve<G1>>::map_to_curve(&u0);
             q.add_assign(&<G1 as MapToCurve<G1>>::map_to_curve(&u1));
             let pa = p.into_affine();
-            format!("{} insub={} oncurve={} equals_map_plus_map={}", g1a(&pa), pa.in_subgroup(), pa.verif_is_on_curve(), p == q)
+            // independent of src/map_to_curve.rs: the composition built from the single stages
+            let mut s0 = vh::g1_osswu_map(&u0);
+            vh::g1_isogeny_map(&mut s0);
+            let mut s1 = vh::g1_osswu_map(&u1);
+            vh::g1_isogeny_map(&mut s1);
+            s0.add_assign(&s1);
+            vh::g1_clear_h(&mut s0);
+            let mut t0 = vh::g1_osswu_map(&u0);
+            vh::g1_isogeny_map(&mut t0);
+            vh::g1_clear_h(&mut t0);
+            let single_ok = <G1 as MapToCurve<G1>>::map_to_curve(&u0) == t0;
+            format!("{} insub={} oncurve={} equals_map_plus_map={} equals_stage_composition={}", g1a(&pa), pa.in_subgroup(), pa.verif_is_on_curve(), p == q, p == s0 && single_ok)
         }
         "g2_map2" => {
             let (u0, u1) = (fq2(&a[0..2]), fq2(&a[2..4]));
@@ -137,7 +148,17 @@ fn run(op: &str, a: &[&str]) -> String {
             let mut q = <G2 as MapToCurve<G2>>::map_to_curve(&u0);
             q.add_assign(&<G2 as MapToCurve<G2>>::map_to_curve(&u1));
             let pa = p.into_affine();
-            format!("{} insub={} oncurve={} equals_map_plus_map={}", g2a(&pa), pa.in_subgroup(), pa.verif_is_on_curve(), p == q)
+            let mut s0 = vh::g2_osswu_map(&u0);
+            vh::g2_isogeny_map(&mut s0);
+            let mut s1 = vh::g2_osswu_map(&u1);
+            vh::g2_isogeny_map(&mut s1);
+            s0.add_assign(&s1);
+            vh::g2_clear_h(&mut s0);
+            let mut t0 = vh::g2_osswu_map(&u0);
+            vh::g2_isogeny_map(&mut t0);
+            vh::g2_clear_h(&mut t0);
+            let single_ok = <G2 as MapToCurve<G2>>::map_to_curve(&u0) == t0;
+            format!("{} insub={} oncurve={} equals_map_plus_map={} equals_stage_composition={}", g2a(&pa), pa.in_subgroup(), pa.verif_is_on_curve(), p == q, p == s0 && single_ok)
         }
         // ---- scalar multiplication (generator times k) through the different paths
         // every scalar-multiplication path on one (point, scalar): `g1_mulpaths <x|inf> <y|-> k`, `g2_mulpaths <x.c0|inf> <x.c1> <y.c0> <y.c1> k`
